@@ -92,4 +92,65 @@ theorem lookup_pyScope (ls : List (List (String × Val))) (n : String) :
     rw [lookup_append, ih]
     cases lookup l n <;> rfl
 
+/-! ### tables in which every name is bound to a real value -/
+
+def Tbl.AllSome (t : Tbl) : Prop := ∀ p ∈ t, p.2.isSome = true
+
+theorem Tbl.AllSome.insertIfAbsent {t : Tbl} (h : t.AllSome) (k : String) (v : Val) : (t.insertIfAbsent k v).AllSome := by
+  unfold Tbl.insertIfAbsent
+  split
+  · exact h
+  · intro p hp
+    rcases List.mem_append.mp hp with hp | hp
+    · exact h p hp
+    · have : p = (k, some v) := by simpa using hp
+      subst this; rfl
+
+theorem Tbl.AllSome.addLookup {t : Tbl} (h : t.AllSome) (l : List (String × Val)) : (t.addLookup l).AllSome := by
+  induction l generalizing t with
+  | nil => exact h
+  | cons p l ih =>
+    have : t.addLookup (p :: l) = (t.insertIfAbsent p.1 p.2).addLookup l := rfl
+    rw [this]
+    exact ih (h.insertIfAbsent p.1 p.2)
+
+theorem Tbl.AllSome.foldl {t : Tbl} (h : t.AllSome) (ls : List (List (String × Val))) : (ls.foldl Tbl.addLookup t).AllSome := by
+  induction ls generalizing t with
+  | nil => exact h
+  | cons l ls ih => exact ih (h.addLookup l)
+
+/-- the table built from look-ups binds every name to a real value -/
+theorem ofLookups_allSome (ls : List (List (String × Val))) : (Tbl.ofLookups ls).AllSome :=
+  Tbl.AllSome.foldl (t := []) (fun _ hp => by simp at hp) ls
+
+/-- such a table IS the table of its own (name, value) pairs -/
+theorem ofNames_values {t : Tbl} (h : t.AllSome) : Tbl.ofNames t.values = t := by
+  induction t with
+  | nil => rfl
+  | cons p t ih =>
+    obtain ⟨k, v⟩ := p
+    have hv := h (k, v) List.mem_cons_self
+    cases v with
+    | none => simp at hv
+    | some x =>
+      have ht : Tbl.AllSome t := fun q hq => h q (List.mem_cons_of_mem _ hq)
+      have := ih ht
+      simp only [Tbl.values, Tbl.ofNames, List.filterMap_cons, Option.map_some, List.map_cons] at this ⊢
+      rw [this]
+
+theorem lookup_values {t : Tbl} (h : t.AllSome) (n : String) : (lookup t.values n).map some = lookupT t n := by
+  induction t with
+  | nil => rfl
+  | cons p t ih =>
+    obtain ⟨k, v⟩ := p
+    have hv := h (k, v) List.mem_cons_self
+    cases v with
+    | none => simp at hv
+    | some x =>
+      have ht : Tbl.AllSome t := fun q hq => h q (List.mem_cons_of_mem _ hq)
+      simp only [Tbl.values, List.filterMap_cons, Option.map_some, lookup, lookupT]
+      split
+      · rfl
+      · exact ih ht
+
 end Icontract.Ex
